@@ -163,6 +163,28 @@ func CodecCorpus(packageRoot string, seed int64, nRandom int) *Schema {
 		{Name: "own", Type: P("bool")},
 	}})
 	s.Add(&Named{Ident: Ident{"IncNoOwnFields", ns}, Kind: "record", Includes: []Ident{{"Inner", ns}}})
+	// include lattices: a root with r required fields, an intermediate record adding m, and several siblings
+	// including the intermediate one (and one including two intermediates), each with own required fields:
+	// the required-field sets / default tables of siblings must not influence each other
+	req := func(prefix string, n int) []Field {
+		var fs []Field
+		for i := 0; i < n; i++ {
+			fs = append(fs, Field{Name: fmt.Sprintf("%s%d", prefix, i), Type: P([]string{"int32", "string", "bool"}[i%3])})
+		}
+		fs = append(fs, Field{Name: prefix + "Opt", Type: P("string"), Optional: true})
+		return fs
+	}
+	for li, shape := range [][2]int{{2, 1}, {3, 1}, {3, 2}, {1, 1}, {4, 1}} {
+		root, mid := fmt.Sprintf("Lat%dRoot", li), fmt.Sprintf("Lat%dMid", li)
+		s.Add(&Named{Ident: Ident{root, ns}, Kind: "record", Fields: req(fmt.Sprintf("r%d", li), shape[0])})
+		s.Add(&Named{Ident: Ident{mid, ns}, Kind: "record", Includes: []Ident{{root, ns}}, Fields: req(fmt.Sprintf("m%d", li), shape[1])})
+		for sib := 0; sib < 3; sib++ {
+			s.Add(&Named{Ident: Ident{fmt.Sprintf("Lat%dSib%d", li, sib), ns}, Kind: "record", Includes: []Ident{{mid, ns}},
+				Fields: req(fmt.Sprintf("s%d%c", li, 'a'+sib), 1+sib)})
+		}
+	}
+	s.Add(&Named{Ident: Ident{"LatJoin", ns}, Kind: "record", Includes: []Ident{{"Lat0Mid", ns}, {"Lat1Mid", ns}}, Fields: req("j", 2)})
+	s.Add(&Named{Ident: Ident{"LatJoin2", ns}, Kind: "record", Includes: []Ident{{"Lat1Mid", ns}, {"Lat2Mid", ns}}, Fields: req("jj", 1)})
 	// recursion through optional / containers
 	s.Add(&Named{Ident: Ident{"Tree", ns}, Kind: "record", Fields: []Field{
 		{Name: "v", Type: P("string")},
